@@ -132,17 +132,17 @@ def _flatten_add(node):
     return [node]
 
 
-def _layout(expr, what):
-    """`a.ljust(6) + b.rjust(5) + spaces + 10 * spaces + c` -> [(name, just, width)]"""
+def _layout(expr, what, blank="spaces"):
+    """`a.ljust(6) + b.rjust(5) + spaces + 10 * spaces + c` -> [(name, just, width)]; `blank` = the variable holding one blank per atom"""
     out = []
     for n in _flatten_add(expr):
         if isinstance(n, ast.Call) and isinstance(n.func, ast.Attribute) and n.func.attr in ("ljust", "rjust") \
                 and isinstance(n.func.value, ast.Name) and len(n.args) == 1 and isinstance(n.args[0], ast.Constant):
             out.append((n.func.value.id, n.func.attr, int(n.args[0].value)))
-        elif isinstance(n, ast.Name) and n.id == "spaces":
+        elif isinstance(n, ast.Name) and n.id == blank:
             out.append(("spaces", "lit", 1))
         elif isinstance(n, ast.BinOp) and isinstance(n.op, ast.Mult) and isinstance(n.left, ast.Constant) \
-                and isinstance(n.right, ast.Name) and n.right.id == "spaces":
+                and isinstance(n.right, ast.Name) and n.right.id == blank:
             out.append(("spaces", "lit", int(n.left.value)))
         elif isinstance(n, ast.Name):
             out.append((n.id, "none", 0))       # written without padding: its own length
@@ -196,6 +196,16 @@ def gen_lean():
     numfmt = {}
     line_parts = model_parts = cryst_parts = None
     h36w = {}
+    # the variable that holds one blank per atom: assigned from np.full(n, " ", …)
+    blank = None
+    for n in ast.walk(ss):
+        if isinstance(n, ast.Assign) and isinstance(n.targets[0], ast.Name):
+            for c in ast.walk(n.value):
+                if isinstance(c, ast.Call) and ast.unparse(c.func) == "np.full" and len(c.args) == 2 and isinstance(c.args[1], ast.Constant) \
+                        and c.args[1].value == " ":
+                    blank = n.targets[0].id
+    if blank is None:
+        raise ValueError("set_structure: the per-atom blank column array (np.full(n, ' ', …)) was not found")
     roles1 = ["record", "pdb_atom_id", "spaces", "names", "spaces", "res_names", "spaces", "chain_ids", "pdb_res_id", "ins_codes"]
     roles2 = ["occupancy", "b_factor", "spaces", "elements", "charge"]
     for n in ast.walk(ss):
@@ -203,7 +213,7 @@ def gen_lean():
             terms = _flatten_add(n.value)
             just = [t for t in terms if isinstance(t, ast.Call) and isinstance(t.func, ast.Attribute) and t.func.attr in ("ljust", "rjust")]
             if len(terms) >= 4 and just:
-                lay = _layout(n.value, "half")
+                lay = _layout(n.value, "half", blank)
                 has_mult = any(isinstance(t, ast.BinOp) and isinstance(t.op, ast.Mult) for t in terms)
                 roles = roles2 if has_mult else roles1
                 if len(lay) != len(roles):
@@ -244,7 +254,7 @@ def gen_lean():
     for k in cslices:
         if k not in slices:
             raise ValueError(f"CRYST1 column slice {k} not found in file.py")
-    chk = _find_func(tree, "_check_pdb_compatibility")
+    chk, numchk_fn = _private_functions(tree)["check"], _private_functions(tree)["numcheck"]
     lens, numchk, minids = {}, {}, {}
     for n in ast.walk(chk):
         # any([len(name) > K for name in array.<field>])
@@ -253,7 +263,7 @@ def gen_lean():
             it = n.generators[0].iter
             if isinstance(it, ast.Attribute):
                 lens[it.attr] = int(n.elt.comparators[0].value)
-        if isinstance(n, ast.Call) and getattr(n.func, "id", None) == "_check_number_columns":
+        if isinstance(n, ast.Call) and getattr(n.func, "id", None) == numchk_fn.name:
             src = ast.unparse(n.args[0])
             key = "coord" if "coord" in src else src.split(".")[-1]
             numchk[key] = (n.args[1].value, int(n.args[2].value))
@@ -269,6 +279,18 @@ def gen_lean():
                 boxchk.append((pp[0][2], int(n.comparators[0].value)))
     if len(boxchk) != 2:
         raise ValueError(f"_check_pdb_compatibility: expected 2 box width checks, found {len(boxchk)}")
+    if not lens:
+        # table-driven form: for category, max_length, … in [("chain_id", 1, …), …]: if any(len(x) > max_length for x in getattr(array, category))
+        for n in ast.walk(chk):
+            if isinstance(n, ast.For) and isinstance(n.iter, (ast.List, ast.Tuple)) and n.iter.elts and all(
+                    isinstance(e, ast.Tuple) and len(e.elts) >= 2 and isinstance(e.elts[0], ast.Constant) and isinstance(e.elts[0].value, str)
+                    and isinstance(e.elts[1], ast.Constant) and isinstance(e.elts[1].value, int) for e in n.iter.elts) \
+                    and isinstance(n.target, ast.Tuple) and len(n.target.elts) >= 2:
+                bound = ast.unparse(n.target.elts[1])
+                uses = [c for c in ast.walk(n) if isinstance(c, ast.Compare) and isinstance(c.left, ast.Call) and getattr(c.left.func, "id", None) == "len"
+                        and isinstance(c.ops[0], ast.Gt) and ast.unparse(c.comparators[0]) == bound]
+                if uses:
+                    lens = {e.elts[0].value: int(e.elts[1].value) for e in n.iter.elts}
     if set(lens) != {"chain_id", "res_name", "atom_name", "ins_code", "element"}:
         raise ValueError(f"_check_pdb_compatibility: length checks found for {sorted(lens)} only")
     if set(numchk) != {"coord", "b_factor", "occupancy"}:
@@ -341,10 +363,11 @@ def gen_lean():
 
 # ---------------------------------------------------------------- translator, part 2: guards, literals, defaults, error classes
 def _norm(node):
-    """source text of an expression without blanks (blanks inside string literals are kept)"""
+    """source text of an expression in one canonical spacing: blanks are kept only between two word characters
+    (`not x`, `a in b`, `x if c else y`) and inside string literals"""
     t = ast.unparse(node)
     out, q = [], None
-    for ch in t:
+    for i, ch in enumerate(t):
         if q:
             out.append(ch)
             if ch == q:
@@ -352,7 +375,12 @@ def _norm(node):
         elif ch in "'\"":
             q = ch
             out.append(ch)
-        elif ch != " ":
+        elif ch == " ":
+            prev = out[-1] if out else ""
+            nxt = t[i + 1] if i + 1 < len(t) else ""
+            if (prev.isalnum() or prev == "_") and (nxt.isalnum() or nxt == "_"):
+                out.append(" ")
+        else:
             out.append(ch)
     return "".join(out)
 
@@ -389,80 +417,293 @@ def _pyx_function(src, name):
     body = re.sub(r'"""(.*?)"""', "", m.group(0), flags=re.S)
     lines = [re.sub(r"\s+", " ", l.split("#")[0]).strip() for l in body.splitlines()]
     # message texts are not logic: lines that are only a string literal are left out
+    lines = [re.sub(r"^raise (\w+)\(.*$", r"raise \1(", l) for l in lines]
     return [l for l in lines if l and not re.match(r"^f?[\"']", l)]
 
 
+_SPEC_RE = re.compile(r"^[<>]?\d+\.\d+f$")
+
+
+def _methods(tree):
+    out = {}
+    for n in ast.walk(tree):
+        if isinstance(n, ast.ClassDef) and n.name == "PDBFile":
+            for m in n.body:
+                if isinstance(m, ast.FunctionDef):
+                    out[m.name] = m
+    return out
+
+
+def _has_startswith(fn, text):
+    for n in ast.walk(fn):
+        if isinstance(n, ast.Call) and isinstance(n.func, ast.Attribute) and n.func.attr == "startswith" and n.args:
+            try:
+                v = ast.literal_eval(n.args[0])
+            except Exception:  # noqa: BLE001
+                continue
+            if v == text or (isinstance(v, tuple) and text in v):
+                return True
+    return False
+
+
+def _private_functions(tree):
+    """the private helpers of the anchored code, found by what they do / how the public methods call them (not by name)"""
+    meth = _methods(tree)
+    mod = {n.name: n for n in tree.body if isinstance(n, ast.FunctionDef)}
+    ss, gs = meth.get("set_structure"), meth.get("get_structure")
+    if ss is None or gs is None:
+        raise ValueError("PDBFile.set_structure / get_structure not found")
+    found = {}
+    # the compatibility check: first statement-level call f(array, hybrid36) of set_structure
+    for st in ss.body:
+        if isinstance(st, ast.Expr) and isinstance(st.value, ast.Call) and isinstance(st.value.func, ast.Name) \
+                and [ast.unparse(a) for a in st.value.args] == ["array", "hybrid36"] and st.value.func.id in mod:
+            found["check"] = mod[st.value.func.id]
+            break
+    if "check" not in found:
+        raise ValueError("set_structure: call of the compatibility check f(array, hybrid36) not found")
+    # the number-width check: module function called from the check with a float format spec
+    for n in ast.walk(found["check"]):
+        if isinstance(n, ast.Call) and isinstance(n.func, ast.Name) and n.func.id in mod \
+                and any(isinstance(x, ast.Constant) and isinstance(x.value, str) and _SPEC_RE.match(x.value) for x in n.args):
+            found["numcheck"] = mod[n.func.id]
+            break
+    if "numcheck" not in found:
+        raise ValueError("compatibility check: call of the number-width check with a format spec not found")
+    for name, m in meth.items():
+        if not name.startswith("_"):
+            continue
+        if _has_startswith(m, "CONECT"):
+            found["get_bonds"] = m
+        elif any(isinstance(j, ast.JoinedStr) and j.values and isinstance(j.values[0], ast.Constant) and str(j.values[0].value).startswith("CONECT")
+                 for j in ast.walk(m)):
+            found["set_bonds"] = m
+        elif _has_startswith(m, "MODEL"):
+            found["index"] = m
+    # model selection: private method called in get_structure with the public parameter `model`
+    for n in ast.walk(gs):
+        if isinstance(n, ast.Call) and isinstance(n.func, ast.Attribute) and ast.unparse(n.func.value) == "self" and n.func.attr in meth \
+                and n.func.attr.startswith("_"):
+            if [ast.unparse(a2) for a2 in n.args] == ["model"] and "select" not in found:
+                found["select"] = meth[n.func.attr]
+    # model length: private no-argument method that raises InvalidFileError and is not one of the above
+    taken = {f.name for f in found.values()}
+    for name, m in meth.items():
+        if name.startswith("_") and name not in taken and "InvalidFileError" in _raises(m) and len(m.args.args) == 1:
+            found["model_length"] = m
+    need = ["check", "numcheck", "get_bonds", "set_bonds", "index", "select", "model_length"]
+    missing = [k for k in need if k not in found]
+    if missing:
+        raise ValueError(f"private helpers not found structurally: {missing}")
+    return found
+
+
+class _Canon(ast.NodeTransformer):
+    """alpha-normalisation: locals (and the parameters of private functions) -> v0, v1, … by first binding; private module
+    constants -> their value; private functions / methods / attributes -> P0, P1, … by first use; doc strings, annotations and
+    the arguments of raise / warn removed."""
+
+    def __init__(self, fn, consts, private_names):
+        self.consts, self.private_names = consts, private_names
+        self.locals, self.priv = {}, {}
+        keep = set()
+        if not fn.name.startswith("_"):
+            keep = {a.arg for a in fn.args.args + fn.args.kwonlyargs}
+        keep.add("self")
+        self._bind_order(fn, keep)
+
+    def _bind_order(self, node, keep):
+        def bind(name):
+            if name not in keep and name not in self.locals:
+                self.locals[name] = f"v{len(self.locals)}"
+
+        def go(n):
+            if isinstance(n, (ast.FunctionDef, ast.Lambda)):
+                for a2 in n.args.args + n.args.kwonlyargs:
+                    bind(a2.arg)
+                if isinstance(n, ast.FunctionDef) and n is not node:
+                    bind(n.name)
+            if isinstance(n, ast.Name) and isinstance(n.ctx, ast.Store):
+                bind(n.id)
+            if isinstance(n, ast.ExceptHandler) and n.name:
+                bind(n.name)
+            # comprehension variables are bound in the generators, which come after the element in the AST: visit them first
+            if isinstance(n, (ast.ListComp, ast.SetComp, ast.GeneratorExp, ast.DictComp)):
+                for g in n.generators:
+                    go(g)
+            for c in ast.iter_child_nodes(n):
+                go(c)
+        go(node)
+
+    def _p(self, name):
+        if name not in self.priv:
+            self.priv[name] = f"P{len(self.priv)}"
+        return self.priv[name]
+
+    def visit_FunctionDef(self, node):
+        self.generic_visit(node)
+        if node.body and isinstance(node.body[0], ast.Expr) and isinstance(node.body[0].value, ast.Constant) and isinstance(node.body[0].value.value, str):
+            node.body = node.body[1:] or [ast.Pass()]
+        node.returns = None
+        if node.name in self.locals:
+            node.name = self.locals[node.name]
+        return node
+
+    def visit_arg(self, node):
+        node.annotation = None
+        if node.arg in self.locals:
+            node.arg = self.locals[node.arg]
+        return node
+
+    def visit_Name(self, node):
+        if node.id in self.locals:
+            return ast.copy_location(ast.Name(id=self.locals[node.id], ctx=node.ctx), node)
+        if node.id in self.consts:
+            return ast.copy_location(ast.parse(self.consts[node.id], mode="eval").body, node)
+        if node.id in self.private_names:
+            return ast.copy_location(ast.Name(id=self._p(node.id), ctx=node.ctx), node)
+        return node
+
+    def visit_Attribute(self, node):
+        self.generic_visit(node)
+        if node.attr.startswith("_") and not node.attr.startswith("__") and ast.unparse(node.value) == "self":
+            node.attr = self._p("self." + node.attr)
+        return node
+
+    def visit_ExceptHandler(self, node):
+        self.generic_visit(node)
+        if node.name in self.locals:
+            node.name = self.locals[node.name]
+        return node
+
+    def visit_Raise(self, node):
+        self.generic_visit(node)
+        if isinstance(node.exc, ast.Call):
+            node.exc.args, node.exc.keywords = [], []
+        return node
+
+    def visit_Call(self, node):
+        self.generic_visit(node)
+        if ast.unparse(node.func) in ("warnings.warn", "warn"):
+            node.args, node.keywords = [], []
+        return node
+
+
+def _canon(fn, consts, private_names):
+    import copy
+    c = copy.deepcopy(fn)
+    c = _Canon(c, consts, private_names).visit(c)
+    ast.fix_missing_locations(c)
+    return c
+
+
+def _module_consts(tree):
+    """private module constants -> source text of their value (slices, limits)"""
+    out, private = {}, set()
+    for n in tree.body:
+        if isinstance(n, ast.Assign) and len(n.targets) == 1 and isinstance(n.targets[0], ast.Name) and n.targets[0].id.startswith("_"):
+            v = n.value
+            if isinstance(v, ast.Constant) or (isinstance(v, ast.Call) and getattr(v.func, "id", None) == "slice"):
+                out[n.targets[0].id] = ast.unparse(v)
+        if isinstance(n, ast.FunctionDef) and n.name.startswith("_"):
+            private.add(n.name)
+    return out, private
+
+
+def _if_tests(fn):
+    """tests of all if / elif statements in source order"""
+    out = []
+
+    def go(n):
+        for c in ast.iter_child_nodes(n):
+            if isinstance(c, ast.If):
+                out.append(_norm(c.test))
+            go(c)
+    go(fn)
+    return out
+
+
 def gen_logic(tree, psrc, paths):
-    ss = _find_func(tree, "set_structure")
-    chk = _find_func(tree, "_check_pdb_compatibility")
-    numchk = _find_func(tree, "_check_number_columns")
-    gs = _find_func(tree, "get_structure")
-    idx = _find_func(tree, "_index_models_and_atoms")
-    sel = _find_func(tree, "_get_atom_record_indices_for_model")
-    gml = _find_func(tree, "_get_model_length")
-    gb = _find_func(tree, "_get_bonds")
-    sb = _find_func(tree, "_set_bonds")
-    rd = _find_func(tree, "read")
+    consts, private = _module_consts(tree)
+    meth = _methods(tree)
+    pf = _private_functions(tree)
+
+    def C(fn):
+        return _canon(fn, consts, private)
+    ss, gs, rd = C(meth["set_structure"]), C(meth["get_structure"]), C(meth["read"])
+    chk, numchk = C(pf["check"]), C(pf["numcheck"])
+    idx, sel, gml, gb, sb = C(pf["index"]), C(pf["select"]), C(pf["model_length"]), C(pf["get_bonds"]), C(pf["set_bonds"])
     facts = {}
-    # --- writer
+    # --- writer (all finders are structural: they look at what a statement contains, never at a local name)
     for n in ast.walk(ss):
         if isinstance(n, ast.Call) and ast.unparse(n.func) == "np.where" and len(n.args) == 3:
-            a0 = ast.unparse(n.args[0])
-            if a0 == "array.hetero":
+            if ast.unparse(n.args[0]) == "array.hetero":
                 facts["recordNames"] = [n.args[1].value, n.args[2].value]
-            elif isinstance(n.args[0], ast.Compare) and "_PDB_MAX" in ast.unparse(n.args[1]):
-                key = "resWrap" if "res_id" in a0 else "atomWrap"
-                facts[key] = [_norm(n.args[0]).replace("array.res_id", "id").replace("atom_id", "id").replace("res_id", "id"),
-                              _norm(n.args[1]).replace("array.res_id", "id").replace("atom_id", "id").replace("res_id", "id"),
-                              _norm(n.args[2]).replace("array.res_id", "id").replace("atom_id", "id").replace("res_id", "id")]
+            elif isinstance(n.args[0], ast.Compare) and any(isinstance(x, ast.Mod) for x in ast.walk(n.args[1])):
+                # the wrapped variable itself is written `id`: (id > 0, (id - 1) % MAX + 1, id)
+                var = ast.unparse(n.args[2])
+                key = "resWrap" if "res_id" in var or "9999+" in _norm(n.args[1]).replace("99999", "") else "atomWrap"
+                if "99999" in _norm(n.args[1]):
+                    key = "atomWrap"
+                facts[key] = [_norm(x).replace(_norm(n.args[2]), "id") for x in n.args]
         if isinstance(n, ast.Call) and ast.unparse(n.func) == "np.full" and len(n.args) == 2 and isinstance(n.args[1], ast.Constant):
             facts.setdefault("defaultTexts", []).append(n.args[1].value)
         if isinstance(n, ast.ListComp) and isinstance(n.elt, ast.IfExp) and isinstance(n.elt.body, ast.JoinedStr):
-            # f" {atm}" if len(elem) == 1 and len(atm) < 4 else atm
             facts["alignRule"] = [_norm(n.elt.test), "".join(v.value if isinstance(v, ast.Constant) else "{}" for v in n.elt.body.values)]
-        if isinstance(n, ast.ListComp) and isinstance(n.elt, ast.IfExp) and "charge" in ast.unparse(n.elt.test):
-            e = n.elt
-            inner = e.orelse
+        if isinstance(n, ast.ListComp) and isinstance(n.elt, ast.IfExp) and any(isinstance(x, ast.Constant) and x.value == "+" for x in ast.walk(n.elt)):
+            e, inner = n.elt, n.elt.orelse
             facts["chargeText"] = [_norm(e.test), _norm(e.body), _norm(inner.test), _norm(inner.body), _norm(inner.orelse)]
-        if isinstance(n, ast.Assign) and ast.unparse(n.targets[0]) == "is_stack":
-            facts["isStack"] = _norm(n.value)
-        if isinstance(n, ast.Call) and ast.unparse(n.func) == "self.lines.append" and isinstance(n.args[0], ast.Constant):
+        if isinstance(n, ast.Compare) and isinstance(n.left, ast.Subscript) and isinstance(n.left.value, ast.Attribute) and n.left.value.attr == "shape":
+            facts["isStack"] = _norm(n).replace(_norm(n.left.value.value), "coords")
+        if isinstance(n, ast.Call) and isinstance(n.func, ast.Attribute) and n.func.attr == "append" and ast.unparse(n.func.value) == "self.lines" \
+                and isinstance(n.args[0], ast.Constant):
             facts["endmdl"] = n.args[0].value
-        if isinstance(n, ast.Subscript) and ast.unparse(n.value) == "bond_array" and isinstance(n.slice, ast.BinOp):
+        if isinstance(n, ast.Subscript) and isinstance(n.slice, ast.BinOp) and isinstance(n.slice.op, ast.BitOr):
             terms = []
 
-            def flat(b):
-                if isinstance(b, ast.BinOp) and isinstance(b.op, ast.BitOr):
-                    flat(b.left)
-                    flat(b.right)
+            def flat(b_):
+                if isinstance(b_, ast.BinOp) and isinstance(b_.op, ast.BitOr):
+                    flat(b_.left)
+                    flat(b_.right)
                 else:
-                    terms.append(_norm(b))
+                    terms.append(_norm(b_))
             flat(n.slice)
-            facts["carriable"] = terms
-        if isinstance(n, ast.Call) and isinstance(n.func, ast.Attribute) and n.func.attr == "_set_bonds":
-            facts["setBondsArgs"] = [_norm(a) for a in n.args]
-        if isinstance(n, ast.Assign) and ast.unparse(n.targets[0]) == "hetero_indices":
+            if len(terms) >= 3:
+                facts["carriable"] = terms
+        if isinstance(n, ast.Assign) and any(isinstance(c2, ast.Call) and ast.unparse(c2.func) == "filter_solvent" for c2 in ast.walk(n.value)):
             facts["heteroIndices"] = _norm(n.value)
-        if isinstance(n, ast.Call) and isinstance(n.func, ast.Attribute) and n.func.attr == "astype" and ast.unparse(n.args[0]) == "np.int64":
+        if isinstance(n, ast.Call) and isinstance(n.func, ast.Attribute) and n.func.attr == "astype" and n.args and ast.unparse(n.args[0]) == "np.int64":
             facts.setdefault("int64Casts", []).append(_norm(n.func.value))
+        if isinstance(n, ast.Call) and isinstance(n.func, ast.Attribute) and ast.unparse(n.func.value) == "self" and n.args \
+                and isinstance(n.args[0], ast.Call) and ast.unparse(n.args[0].func) == "BondList":
+            facts["setBondsArgs"] = [_norm(a2) for a2 in n.args]
     fsrc = ast.parse(open(os.path.join(paths.SRC, "biotite/structure/filter.py")).read())
+    solvent_fn = _find_func(fsrc, "filter_solvent")
+    sname = None
+    for n in ast.walk(solvent_fn):
+        if isinstance(n, ast.Call) and ast.unparse(n.func) == "np.isin" and isinstance(n.args[1], ast.Name):
+            sname = n.args[1].id
     for n in fsrc.body:
-        if isinstance(n, ast.Assign) and ast.unparse(n.targets[0]) == "_solvent_list":
+        if isinstance(n, ast.Assign) and ast.unparse(n.targets[0]) == sname:
             facts["solventList"] = [e.value for e in n.value.elts]
     # --- CONECT writer / reader
     for n in ast.walk(sb):
-        if isinstance(n, ast.Compare) and _norm(n.left) == "n_added" and isinstance(n.ops[0], ast.Eq) and isinstance(n.comparators[0], ast.Constant) \
-                and n.comparators[0].value != 0:
+        if isinstance(n, ast.Compare) and isinstance(n.left, ast.Name) and isinstance(n.ops[0], ast.Eq) and isinstance(n.comparators[0], ast.Constant) \
+                and isinstance(n.comparators[0].value, int) and n.comparators[0].value > 1:
             facts["conectPerRecord"] = n.comparators[0].value
+        if isinstance(n, ast.Call) and ast.unparse(n.func) == "range" and len(n.args) == 3 and isinstance(n.args[2], ast.Constant):
+            facts["conectPerRecord"] = n.args[2].value          # `for first in range(0, len(partners), 4)`
         if isinstance(n, ast.JoinedStr):
             p = _fstring_parts(n)
-            if any(k == "val" for k, a, b in p):
-                facts.setdefault("conectParts", []).append([(a if k == "lit" else "{" + b + "}") for k, a, b in p])
+            if any(k == "val" for k, a2, b2 in p):
+                facts.setdefault("conectParts", []).append([(a2 if k == "lit" else "{" + b2 + "}") for k, a2, b2 in p])
     for n in ast.walk(gb):
         if isinstance(n, ast.Call) and ast.unparse(n.func) == "range" and len(n.args) == 3:
-            facts["conectRange"] = [a.value for a in n.args]
-        if isinstance(n, ast.Subscript) and ast.unparse(n.value) == "line" and isinstance(n.slice, ast.Slice):
-            facts.setdefault("conectSlices", []).append([_norm(n.slice.lower), _norm(n.slice.upper)])
+            facts["conectRange"] = [a2.value for a2 in n.args]
+        if isinstance(n, ast.Subscript) and isinstance(n.slice, ast.Slice) and n.slice.lower is not None and n.slice.upper is not None \
+                and n.slice.step is None and isinstance(n.value, ast.Name):
+            lo, up = _norm(n.slice.lower), _norm(n.slice.upper)
+            facts.setdefault("conectSlices", []).append([lo, up] if lo.isdigit() else ["i", up.replace(lo, "i")])
         if isinstance(n, ast.Call) and ast.unparse(n.func) == "np.full":
             facts["bondMapInit"] = _norm(n.args[1])
     # --- reader: prefixes, padding, hetero, charge
@@ -472,55 +713,68 @@ def gen_logic(tree, psrc, paths):
             if isinstance(n, ast.Call) and isinstance(n.func, ast.Attribute) and n.func.attr == "startswith":
                 prefixes.setdefault(nm, [])
                 v = ast.literal_eval(n.args[0])
+                v = "|".join(v) if isinstance(v, tuple) else v
                 if v not in prefixes[nm]:
                     prefixes[nm].append(v)
+        prefixes[nm] = sorted(prefixes.get(nm, []))
     facts["prefixes"] = prefixes
     for n in ast.walk(rd):
         if isinstance(n, ast.Call) and isinstance(n.func, ast.Attribute) and n.func.attr == "ljust":
             facts["padWidth"] = n.args[0].value
+    field_names = {"atom_id", "charge", "occupancy", "b_factor"}
     for n in ast.walk(gs):
-        if isinstance(n, ast.Compare) and _norm(n.left) == "line[_record]":
-            facts["heteroTest"] = [type(n.ops[0]).__name__, n.comparators[0].value]
-        if isinstance(n, ast.Compare) and _norm(n.left) == "line[_charge][0]" and isinstance(n.ops[0], ast.In):
+        if isinstance(n, ast.Compare) and n.comparators and isinstance(n.comparators[0], ast.Constant) and n.comparators[0].value == "HETATM":
+            facts["heteroTest"] = [type(n.ops[0]).__name__, n.comparators[0].value, _norm(n.left.slice) if isinstance(n.left, ast.Subscript) else "?"]
+        if isinstance(n, ast.Compare) and isinstance(n.ops[0], ast.In) and isinstance(n.comparators[0], ast.Constant) and n.comparators[0].value in ("+-", "-+"):
             facts["chargeSigns"] = n.comparators[0].value
-        if isinstance(n, ast.Call) and ast.unparse(n.func) == "np.where" and "charge" in ast.unparse(n.args[0]):
-            facts["chargeBlank"] = [_norm(n.args[0]), n.args[1].value]
-        if isinstance(n, ast.Subscript) and _norm(n.value) == "line[_charge]" and isinstance(n.slice, ast.Slice) and n.slice.step is not None:
+        if isinstance(n, ast.Call) and ast.unparse(n.func) == "np.where" and len(n.args) == 3 and isinstance(n.args[1], ast.Constant) and n.args[1].value == "0":
+            cmp_ = n.args[0]
+            facts["chargeBlank"] = [type(cmp_.ops[0]).__name__, cmp_.comparators[0].value, n.args[1].value]
+        if isinstance(n, ast.Subscript) and isinstance(n.slice, ast.Slice) and n.slice.step is not None:
             facts["chargeReversed"] = _norm(n.slice)
         if isinstance(n, ast.If) and isinstance(n.test, ast.Compare) and _norm(n.test.left) == "altloc":
             facts.setdefault("altlocModes", []).append(n.test.comparators[0].value)
-        if isinstance(n, ast.If) and isinstance(n.test, ast.Compare) and _norm(n.test.left) == "field":
+        if isinstance(n, ast.If) and isinstance(n.test, ast.Compare) and isinstance(n.test.left, ast.Name) and n.test.left.id != "altloc" \
+                and isinstance(n.test.comparators[0], ast.Constant) and n.test.comparators[0].value in field_names:
             facts.setdefault("extraFields", []).append(n.test.comparators[0].value)
-    # --- model selection
-    facts["modelIndex"] = [_norm(n.test) for n in ast.walk(sel) if isinstance(n, ast.If)] + \
-        [_norm(n.value) for n in ast.walk(sel) if isinstance(n, ast.Assign) and _norm(n.targets[0]) == "model"]
-    facts["modelFilters"] = [_norm(n.value) for n in ast.walk(sel) if isinstance(n, ast.Assign) and _norm(n.targets[0]) == "line_filter"]
+    # --- model selection: guards in source order, the statements that rebind the index, the record filters
+    facts["modelIndex"] = _if_tests(sel)
+    facts["modelRebind"] = [_norm(n.value) for n in ast.walk(sel) if isinstance(n, ast.Assign) and _norm(n.targets[0]) == "v0"]
+    facts["modelFilters"] = sorted({_norm(n) for n in ast.walk(sel) if isinstance(n, ast.Compare) and isinstance(n.ops[0], (ast.GtE, ast.Lt))
+                                    and any(isinstance(x, ast.Subscript) for x in ast.walk(n))})
     # --- altloc filters (filter.py)
+    fconsts, fprivate = _module_consts(fsrc)
     for name in ("filter_first_altloc", "filter_highest_occupancy_altloc"):
-        fn = _find_func(fsrc, name)
+        fn = _canon(_find_func(fsrc, name), fconsts, fprivate)
         none_ids, cmp_, start = None, None, None
         for n in ast.walk(fn):
-            if isinstance(n, ast.Call) and ast.unparse(n.func) == "np.isin":
+            if isinstance(n, ast.Call) and ast.unparse(n.func) == "np.isin" and isinstance(n.args[1], ast.List):
                 none_ids = [e.value for e in n.args[1].elts]
-            if isinstance(n, ast.Assign) and _norm(n.targets[0]) == "highest" and isinstance(n.value, (ast.UnaryOp, ast.Constant)):
+            if isinstance(n, ast.Assign) and isinstance(n.value, ast.UnaryOp) and isinstance(n.value.operand, ast.Constant) \
+                    and isinstance(n.value.operand.value, float):
                 start = _norm(n.value)
-            if isinstance(n, ast.Compare) and _norm(n.left) == "occupancy_sum":
-                cmp_ = type(n.ops[0]).__name__ + ":" + _norm(n.comparators[0])
-            if isinstance(n, ast.For) and "sorted" in ast.unparse(n.iter):
-                facts["altlocIdOrder"] = _norm(n.iter)
+            if isinstance(n, ast.For) and isinstance(n.iter, ast.Call) and ast.unparse(n.iter.func) == "sorted":
+                facts["altlocIdOrder"] = "sorted(set(ids))" if isinstance(n.iter.args[0], ast.Call) and ast.unparse(n.iter.args[0].func) == "set" else _norm(n.iter)
+                for c2 in ast.walk(n):
+                    if isinstance(c2, ast.If) and isinstance(c2.test, ast.Compare) and isinstance(c2.test.left, ast.Name) \
+                            and isinstance(c2.test.comparators[0], ast.Name):
+                        cmp_ = type(c2.test.ops[0]).__name__
         facts["altlocNone:" + name] = none_ids
         if cmp_:
             facts["altlocBest"] = [start, cmp_]
     # --- the compatibility check: guards and error classes
-    facts["checkGuards"] = [_norm(n.test) for n in chk.body if isinstance(n, ast.If)] + \
-        [_norm(m.test) for n in chk.body if isinstance(n, ast.If) for m in n.body if isinstance(m, ast.If)]
-    facts["numberCheck"] = [_norm(n.test) for n in ast.walk(numchk) if isinstance(n, ast.If)]
-    facts["raises"] = {"_check_pdb_compatibility": sorted(set(_raises(chk))), "_check_number_columns": sorted(set(_raises(numchk))),
-                       "_get_atom_record_indices_for_model": sorted(set(_raises(sel))), "_get_model_length": sorted(set(_raises(gml))),
-                       "_get_bonds": sorted(set(_raises(gb))), "get_structure": sorted(set(_raises(gs)))}
+    # the per-field length tests are pinned with their bounds by `checkLengths` (C07_gen_check); here they would only pin whether they
+    # are written out or table-driven
+    facts["checkGuards"] = [g for g in _if_tests(chk) if not g.startswith("any([len(")]
+    facts["numberCheck"] = _if_tests(numchk)
+    facts["raises"] = {"check": sorted(set(_raises(chk))), "numcheck": sorted(set(_raises(numchk))),
+                       "select": sorted(set(_raises(sel))), "model_length": sorted(set(_raises(gml))),
+                       "get_bonds": sorted(set(_raises(gb))), "get_structure": sorted(set(_raises(gs)))}
+    tree = ast.parse(open(os.path.join(paths.SRC, "biotite/structure/io/pdb/file.py")).read())
+    ss_raw, gs_raw = meth["set_structure"], meth["get_structure"]
     # --- default argument values at every entry level
     ctree = ast.parse(open(os.path.join(paths.SRC, "biotite/structure/io/pdb/convert.py")).read())
-    facts["defaults"] = {"PDBFile.get_structure": _defaults(gs), "PDBFile.set_structure": _defaults(ss),
+    facts["defaults"] = {"PDBFile.get_structure": _defaults(gs_raw), "PDBFile.set_structure": _defaults(ss_raw),
                          "PDBFile.get_coord": _defaults(_find_func(tree, "get_coord")), "PDBFile.get_b_factor": _defaults(_find_func(tree, "get_b_factor")),
                          "pdb.get_structure": _defaults(_find_func(ctree, "get_structure")), "pdb.set_structure": _defaults(_find_func(ctree, "set_structure"))}
     wrappers = {}
@@ -532,12 +786,29 @@ def gen_logic(tree, psrc, paths):
     # --- hybrid36.pyx: the code lines of the five functions (comments, doc strings, blank lines removed)
     pyx = {name: _pyx_function(psrc, name) for name in
            ("encode_hybrid36", "_encode_base36", "decode_hybrid36", "_decode_base36", "max_hybrid36_number")}
+    facts["modelRebind"] = facts.get("modelRebind") or ["-"]
     required = ["recordNames", "atomWrap", "resWrap", "defaultTexts", "alignRule", "chargeText", "isStack", "endmdl", "carriable", "heteroIndices",
                 "int64Casts", "setBondsArgs", "solventList", "conectPerRecord", "conectParts", "conectRange", "conectSlices", "bondMapInit", "padWidth", "heteroTest",
                 "chargeSigns", "chargeBlank", "chargeReversed", "altlocModes", "extraFields", "altlocBest", "altlocIdOrder"]
     missing = [k for k in required if not facts.get(k)]
     if missing:
         raise ValueError(f"file.py / filter.py: constructs not found in the expected shape: {missing}")
+
+    def relabel(texts):
+        """number the canonical locals (v17, P3 …) by first appearance inside this fact only"""
+        m = {}
+
+        def sub(mo):
+            k = mo.group(0)
+            if k not in m:
+                m[k] = ("x" if k[0] == "v" else "p") + str(sum(1 for q in m if q[0] == k[0]))
+            return m[k]
+        if isinstance(texts, str):
+            return re.sub(r"\b[vP]\d+\b", sub, texts)
+        return [re.sub(r"\b[vP]\d+\b", sub, t) if isinstance(t, str) else t for t in texts]
+    for key in ("alignRule", "chargeText", "carriable", "heteroIndices", "int64Casts", "setBondsArgs", "modelIndex", "modelRebind", "modelFilters",
+                "checkGuards", "numberCheck"):
+        facts[key] = relabel(facts[key])
 
     def pairs(d):
         return "[" + ", ".join(f"({_lstr(k)}, {_llist(v)})" for k, v in d.items()) + "]"
@@ -573,6 +844,7 @@ def gen_logic(tree, psrc, paths):
            f"def altlocModes : List String := {_llist(facts['altlocModes'])}",
            f"def extraFields : List String := {_llist(facts['extraFields'])}",
            f"def modelIndex : List String := {_llist(facts['modelIndex'])}",
+           f"def modelRebind : List String := {_llist(facts['modelRebind'])}",
            f"def modelFilters : List String := {_llist(facts['modelFilters'])}",
            f"def altlocNoneFirst : List String := {_llist(facts['altlocNone:filter_first_altloc'])}",
            f"def altlocNoneOccupancy : List String := {_llist(facts['altlocNone:filter_highest_occupancy_altloc'])}",
